@@ -7,11 +7,14 @@ Model: `S4V.Model.Stream` (mirrors `BlockReader::new`, `read_block`, `read_block
 plus an ARBITRARY script of chunk sizes; the theorems quantify over every script.
 
 What is proved (all `bs ≥ 1`, all `d` including `[]`, one byte, exact multiples of `bs`):
-* `assemble_eq_gz`, `assemble_eq_bz2` — every chunking: reading blocks `0, 1, …, k` in order
-  answers `blockAt d bs j` at step `j` (and `Done` past the last block);
-* `assemble_eq_lz4_partial` — the same for lz4 IF the decoder fills the buffer on every read;
-  `assemble_eq_lz4_full_false` — without that hypothesis the statement is false of the code:
-  `read_block_FileLz4` calls `read` once per block and keeps the zero padding after a short read;
+* `assemble_eq_gz`, `assemble_eq_bz2`, `assemble_eq_lz4` — every chunking: reading blocks
+  `0, 1, …, k` in order answers `blockAt d bs j` at step `j` (and `Done` past the last block);
+  the lz4 proof unfolds the generated `LZ4_FILL_LOOP` (the fill loop of `read_block_FileLz4`);
+* `assemble_eq_lz4_single_read_false` — the defect repaired in the source ("`.lz4` logs were
+  corrupted when a read stopped short at a frame block boundary"), kept as a counter-model: with
+  ONE `read` per block (`Kind.lz4Single`, the reader before the repair) the statement is false — a
+  short read leaves zero padding and shifts everything after it; that reader is right only for
+  decoders that fill the buffer on every read (`assemble_eq_lz4_single_read_fills`);
 * `C05_blocks_equal` — a streamed reader asked in non-decreasing order answers exactly what
   the plain reader answers;
 * `C05_lookback` — as coded the look-back keeps ONLY the highest block decoded (L = 0): under
@@ -60,35 +63,56 @@ theorem assemble_eq_bz2 (bs : Nat) (d : Bytes) (cs csPre : List Nat) (k : Nat) (
     (readSeq (Rd.new .bz2 bs d cs csPre) (List.range (k + 1))).1 = (List.range (k + 1)).map (specRes d bs) :=
   assemble_eq .bz2 bs d cs csPre k hbs (Or.inr (Or.inl rfl))
 
-/-- lz4, partial: only for decoders that fill the buffer on every read -/
-theorem assemble_eq_lz4_partial (bs : Nat) (d : Bytes) (cs csPre : List Nat) (k : Nat) (hbs : 1 ≤ bs)
-    (hfill : Fills bs cs) :
+/-- lz4: every chunking of the frame decoder (it returns short at every frame-block boundary) and
+of the size pre-pass. Rests on `decodeBlock_spec`, whose lz4 case unfolds the generated
+`LZ4_FILL_LOOP`: `read_block_FileLz4` reads into the unfilled rest of the block until it is full. -/
+theorem assemble_eq_lz4 (bs : Nat) (d : Bytes) (cs csPre : List Nat) (k : Nat) (hbs : 1 ≤ bs) :
     (readSeq (Rd.new .lz4 bs d cs csPre) (List.range (k + 1))).1 = (List.range (k + 1)).map (specRes d bs) :=
-  assemble_eq .lz4 bs d cs csPre k hbs (Or.inr (Or.inr ⟨rfl, hfill⟩))
+  assemble_eq .lz4 bs d cs csPre k hbs (Or.inr (Or.inr (Or.inl rfl)))
 
-/-- the hypotheses are satisfiable: the empty script (always full reads) fills -/
-example : Fills 3 [] := by intro c hc; cases hc
-example : Fills 3 [3, 7, 3] := by intro c hc; simp at hc; omega
+/-- the flag the lz4 theorems stand on, as generated from the source -/
+theorem lz4_fill_loop_generated : LZ4_FILL_LOOP = true := by decide
 
-/-- lz4, unrestricted: "every chunking" -/
-def assemble_eq_lz4_full : Prop :=
+/-- the short read that used to corrupt the output: the second read returns 2 of the 3 bytes asked
+for; the loop asks again for the rest -/
+example : (readSeq (Rd.new .lz4 3 [1, 2, 3, 4, 5, 6, 7, 8, 9, 10] [3, 2, 3, 3] []) [0, 1, 2, 3]).1
+    = [.found [1, 2, 3], .found [4, 5, 6], .found [7, 8, 9], .found [10]] := by decide
+example : (readSeq (Rd.new .lz4 4 [1, 2, 3, 4, 5, 6, 7, 8, 9] [1, 1, 1, 9, 0, 2] [5]) [0, 1, 2, 3]).1
+    = [.found [1, 2, 3, 4], .found [5, 6, 7, 8], .found [9], .done] := by decide
+/-- `Ok(0) => break`: a stream that ends before the block is full leaves the zero padding (only
+reachable when the stored decoder delivers less than the size pre-pass counted) -/
+example : (fillBreak 4 ⟨[1, 2], [1]⟩ 4 []).1 = [1, 2, 0, 0] := by decide
+
+/-- the lz4 reader BEFORE the repair (one `read` per block): "every chunking" -/
+def assemble_eq_lz4_single_read : Prop :=
   ∀ (bs : Nat) (d : Bytes) (cs csPre : List Nat) (k : Nat), 1 ≤ bs →
-    (readSeq (Rd.new .lz4 bs d cs csPre) (List.range (k + 1))).1 = (List.range (k + 1)).map (specRes d bs)
+    (readSeq (Rd.new .lz4Single bs d cs csPre) (List.range (k + 1))).1 = (List.range (k + 1)).map (specRes d bs)
 
-/-- witness: 10 bytes, `bs = 3`, a decoder whose second read returns 2 of the 3 bytes asked for
-(lz4_flex does that at every frame-block boundary): block 1 is `[4, 5, 0]`, every later block is
-shifted by one byte and the last byte of the file is never delivered -/
-theorem assemble_eq_lz4_full_false : ¬ assemble_eq_lz4_full := by
+/-- the repaired defect as a counter-model — witness: 10 bytes, `bs = 3`, a decoder whose second
+read returns 2 of the 3 bytes asked for (lz4_flex does that at every frame-block boundary):
+block 1 is `[4, 5, 0]`, every later block is shifted by one byte and the last byte of the file is
+never delivered -/
+theorem assemble_eq_lz4_single_read_false : ¬ assemble_eq_lz4_single_read := by
   intro h
   have := h 3 [1, 2, 3, 4, 5, 6, 7, 8, 9, 10] [3, 2, 3, 3] [] 3 (by decide)
   revert this
   decide
 
-example : (readSeq (Rd.new .lz4 3 [1, 2, 3, 4, 5, 6, 7, 8, 9, 10] [3, 2, 3, 3] []) [0, 1, 2, 3]).1
+example : (readSeq (Rd.new .lz4Single 3 [1, 2, 3, 4, 5, 6, 7, 8, 9, 10] [3, 2, 3, 3] []) [0, 1, 2, 3]).1
     = [.found [1, 2, 3], .found [4, 5, 0], .found [6, 7, 8], .found [9]] := by decide
 
-/-- **C05_blocks_equal**: asked for blocks in non-decreasing order, a streamed reader (gz, bz2 —
-every chunking; lz4 — filling decoders) returns what the plain reader returns -/
+/-- the single read was right only for decoders that fill the buffer on every read -/
+theorem assemble_eq_lz4_single_read_fills (bs : Nat) (d : Bytes) (cs csPre : List Nat) (k : Nat) (hbs : 1 ≤ bs)
+    (hfill : Fills bs cs) :
+    (readSeq (Rd.new .lz4Single bs d cs csPre) (List.range (k + 1))).1 = (List.range (k + 1)).map (specRes d bs) :=
+  assemble_eq .lz4Single bs d cs csPre k hbs (Or.inr (Or.inr (Or.inr ⟨rfl, hfill⟩)))
+
+/-- the hypotheses are satisfiable: the empty script (always full reads) fills -/
+example : Fills 3 [] := by intro c hc; cases hc
+example : Fills 3 [3, 7, 3] := by intro c hc; simp at hc; omega
+
+/-- **C05_blocks_equal**: asked for blocks in non-decreasing order, a streamed reader (gz, bz2,
+lz4 — every chunking) returns what the plain reader returns -/
 theorem C05_blocks_equal (kind : Kind) (bs : Nat) (d : Bytes) (cs csPre : List Nat) (ks : List Nat)
     (hbs : 1 ≤ bs) (hk : DecOk kind bs cs) (hord : ks.Pairwise (· ≤ ·)) :
     (readSeq (Rd.new kind bs d cs csPre) ks).1 = (readSeq (Rd.new .plain bs d [] []) ks).1 := by
@@ -98,6 +122,12 @@ theorem C05_blocks_equal (kind : Kind) (bs : Nat) (d : Bytes) (cs csPre : List N
   rw [e] at h1
   rw [h1, h2]
   rfl
+
+/-- lz4 in particular: every chunking of the frame decoder, every non-decreasing request order -/
+theorem C05_blocks_equal_lz4 (bs : Nat) (d : Bytes) (cs csPre : List Nat) (ks : List Nat)
+    (hbs : 1 ≤ bs) (hord : ks.Pairwise (· ≤ ·)) :
+    (readSeq (Rd.new .lz4 bs d cs csPre) ks).1 = (readSeq (Rd.new .plain bs d [] []) ks).1 :=
+  C05_blocks_equal .lz4 bs d cs csPre ks hbs (Or.inr (Or.inr (Or.inl rfl))) hord
 
 /-- the plain reader answers every request sequence, in any order -/
 theorem plain_any_order (bs : Nat) (d : Bytes) (ks : List Nat) (hbs : 1 ≤ bs) :
@@ -236,6 +266,7 @@ theorem new_fsz (kind : Kind) (bs : Nat) (d : Bytes) (cs csPre : List Nat) (hbs 
   | tar => rfl
   | bz2 => exact prepass_size d csPre
   | lz4 => exact prepass_size d csPre
+  | lz4Single => exact prepass_size d csPre
   | xz =>
     by_cases hd : d = []
     · subst hd; rfl
